@@ -18,7 +18,16 @@ Inductive iqtyp := TGet | TSet | TResult | TError.
 Inductive iqpl := PlBind (jid : str) | PlSession | PlOther | PlNone.
 Inductive resattr := ResTrue | ResFalse | ResAbsent | ResGarbage.
 
-(* what the server can send *)
+(* what the server can send.  The abstraction (harness/session.go, itemSx) reads the concrete
+   elements as follows: [SHeader] is the opening element OF THE TRANSPORT IN USE (<stream:stream>
+   over TCP, <open/> over WebSocket; the other transport's opening element is [SUnknown]);
+   [SIq] is an <iq/> in the stream's own namespace that carries the id of the request it
+   answers (an element merely called iq in another namespace, or an iq with another id - a
+   foreign one, or the bind result sent once more where the session result is due - is
+   [SUnknown]); [PlBind jid] is a <bind/> payload with a non-empty <jid/> (an empty <bind/>
+   is [PlOther]).  Well-formedness is what encoding/xml checks: a start tag that repeats an
+   attribute is accepted by it (the last value wins for the fields read here) and is outside
+   this alphabet. *)
 Inductive sitem :=
 | SHeader (id : str)
 | SFeatures (f : features)
@@ -74,12 +83,6 @@ Inductive result :=
 | Ok
 | Err (conn_error : bool) (permanent : bool).   (* ConnError? and its Permanent flag *)
 
-(* NewSession drops the Session object (returns nil) on the early failures *)
-Definition drop_session (p : persist) : persist :=
-  {| p_has_session := false; p_sm_id := []; p_inbound := 0; p_has_queue := false;
-     p_sm_enable := p_sm_enable p; p_bind_jid := []; p_packet_id := 0;
-     p_code_secure := p_code_secure p; p_tls_enabled := false; p_resume_refused := p_resume_refused p |}.
-
 Definition clear_sm (p : persist) : persist :=
   {| p_has_session := p_has_session p; p_sm_id := []; p_inbound := 0; p_has_queue := false;
      p_sm_enable := p_sm_enable p; p_bind_jid := p_bind_jid p; p_packet_id := p_packet_id p;
@@ -89,6 +92,14 @@ Definition set_flags (p : persist) (sec tls : bool) : persist :=
   {| p_has_session := p_has_session p; p_sm_id := p_sm_id p; p_inbound := p_inbound p;
      p_has_queue := p_has_queue p; p_sm_enable := p_sm_enable p; p_bind_jid := p_bind_jid p;
      p_packet_id := p_packet_id p; p_code_secure := sec; p_tls_enabled := tls; p_resume_refused := p_resume_refused p |}.
+
+(* NewSession returns no session on its early failures (features not received, TLS not
+   negotiated).  Client.connect then keeps the Session object of the earlier connections (it
+   replaces c.Session only by a session NewSession returns): everything held on it - the
+   stream-management id, counters, queue, the bound JID - survives the failed attempt; a
+   re-used Session has had its TlsEnabled cleared.  (The name is historical: before the
+   repair the object, and the state with it, was dropped here.) *)
+Definition drop_session (p : persist) : persist := set_flags p (p_code_secure p) false.
 
 Definition with_session (p : persist) : persist :=
   {| p_has_session := true; p_sm_id := p_sm_id p; p_inbound := p_inbound p;
@@ -124,11 +135,15 @@ Definition read_features (s : list sitem) : option (features * list sitem) :=
 Definition read_proceed (s : list sitem) : option (list sitem) :=
   match s with SProceed :: r => Some r | _ => None end.
 (* The connection itself ended where an element was awaited: the script is over (the peer
-   went away) or the connection is cut.  The cause of the failed read is then the
-   connection, not what the server sent (a </stream:stream> IS something the server
-   sent: "stream closed by the server"). *)
-Definition is_cut (s : list sitem) : bool :=
+   went away) or the connection is cut. *)
+Definition conn_lost (s : list sitem) : bool :=
   match s with [] | SEof :: _ => true | _ => false end.
+(* Where the first features, or <proceed/> with TLS mandatory, are awaited, a failure is
+   transient when the connection was lost OR the server itself ended the stream there
+   (</stream:stream>, <stream:error/>: it is going down or not up yet; decodeNext reports both
+   as such); another ELEMENT in their place is an answer the server will give again. *)
+Definition is_cut (s : list sitem) : bool :=
+  match s with [] | SEof :: _ | SClose :: _ | SStreamError :: _ => true | _ => false end.
 (* NextPacket: which items decode to a packet at all *)
 Definition np_ok (i : sitem) : bool :=
   match i with
@@ -208,7 +223,12 @@ Definition step_resume (cfg : config) (chan : bool) (p : persist) (f : features)
         else (w, Err false false, clear_sm p)
     | SFailed :: s' =>
         let '(w2, r, p2) := step_bind cfg chan (clear_sm p) f s' [SFailed] in (w ++ w2, r, p2)
-    | _ => (w, Err false false, clear_sm p)
+    | _ =>
+        (* the connection went away before any answer arrived ([conn_lost]: nothing more, or the
+           connection closed): neither confirmed nor refused, the state is kept for the next
+           connection.  Anything the server did answer - another element, malformed XML, a
+           closed stream - discards it. *)
+        (w, Err false false, if conn_lost s then p else clear_sm p)
     end
   else
     (* no resumption on this stream.  When the server does not offer stream management at
